@@ -274,7 +274,9 @@ def baseline_deselect():
             bad.append((tc.get("classname"), tc.get("name")))
     xml.unlink()
     # node ids: tests/a/b_test.py::name
-    ids = sorted({c.replace(".", "/") + ".py::" + n for c, n in bad})
+    # a collection error is reported as a testcase without a name whose classname is the module
+    ids = sorted({("IGNORE:" + n.replace(".", "/") + ".py") if not c else (c.replace(".", "/") + ".py::" + n)
+                  for c, n in bad})
     f.write_text(json.dumps(ids, indent=1))
     return ids
 
@@ -326,7 +328,7 @@ def run_one(prop, m, jobs, suite, desel, extra_props):
         t0 = time.time()
         args = [PY, "-m", "pytest", "-q", "-x", "-p", "no:cacheprovider", "--timeout=600", "-n", "4", "tests"]
         for d in desel:
-            args += ["--deselect", d]
+            args += ["--ignore=" + d[7:]] if d.startswith("IGNORE:") else ["--deselect", d]
         r = subprocess.run(args, cwd="/repo", env=dict(os.environ, PYTHONPATH=str(tmp / "src")),
                            capture_output=True, text=True)
         rec["suite_wall_s"] = round(time.time() - t0, 1)
